@@ -17,6 +17,8 @@ def main():
     a = ap.parse_args()
     os.environ['VERIF_TIER'] = a.tier
     seed = int(os.environ.get('VERIF_SEED', '0') or 0)
+    if os.environ.get('WN_REPO'):
+        sys.path.insert(0, os.environ['WN_REPO'])
     sys.path.insert(0, VERIF)
     from vf import chx
     harness = os.path.join(VERIF, 'harness', a.pid + '.py')
